@@ -368,7 +368,47 @@ func runC12(c *Ctx) {
 		ok := rtc != nil && guardedBy(st, rtc, factNil(vIs(resultOf(rtc, 1)), true))
 		c.obI("R12.5", st, "wraps-only-successful-responses", ok, "only a successful response's body is wrapped", "")
 	}
-	c.min("R12.5", 8)
+	{
+		var rtc *ssa.Call
+		for _, ci := range allCalls(rt) {
+			if ci.Common().IsInvoke() && ci.Common().Method.Name() == "RoundTrip" {
+				rtc = ci.(*ssa.Call)
+			}
+		}
+		var wraps []ssa.Instruction
+		for _, st := range fieldStores(rt, "net/http.Response", "Body") {
+			wraps = append(wraps, st)
+		}
+		// a response without a body has nothing to drain
+		isBody := vFieldLoad("net/http.Response", "Body", nil)
+		noBody := func(cond ssa.Value, branch bool) bool {
+			if factNil(isBody, true)(cond, branch) {
+				return true
+			}
+			cd, b := stripNot(cond, branch)
+			bo, ok := cd.(*ssa.BinOp)
+			if !ok || !(bo.Op == token.EQL && b || bo.Op == token.NEQ && !b) {
+				return false
+			}
+			isNoBody := func(v ssa.Value) bool {
+				if mi, ok := v.(*ssa.MakeInterface); ok {
+					v = mi.X
+				}
+				ld, ok := derefLoad(v)
+				if !ok {
+					return false
+				}
+				g, ok := ld.(*ssa.Global)
+				return ok && g.Pkg.Pkg.Path() == "net/http" && g.Name() == "NoBody"
+			}
+			return isBody(bo.X) && isNoBody(bo.Y) || isBody(bo.Y) && isNoBody(bo.X)
+		}
+		for _, r := range successReturns(rt, 1) {
+			ok := rtc != nil && !pathExists(rt, rtc, r, noBody, isOneOf(wraps...))
+			c.obI("R12.5", r, "every-successful-response-is-wrapped", ok, "with connection reuse enabled every successful response leaves RoundTrip with its body wrapped in the draining closer (whatever its declared length: a chunked or unknown-length body is drained on Close like any other)", "a successful response can be returned with its body unwrapped")
+		}
+	}
+	c.min("R12.5", 9)
 
 	// R12.6 who may spawn
 	entries := []*ssa.Function{sub, p.Fn("(*rt/client.Runtime).CreateHttpRequest")}
